@@ -48,4 +48,10 @@ def scripted_jobs(prop, oracle, quick_names, tier, seed, extra=None, generated_k
         bounds = dict(scenarios=names, error_scripts="1-2 client errors, codes e1/e2, on 9 catch skeletons, every order", script_len="2 on every scenario; 3 on seq2 and catch_act (capped at 16 x 500 paths each, cap hits are listed as inconclusive)",
                       deep_script="two_steps: 4 actions from {complete, back, cancel, error, skip}", action_kinds=10,
                       targets="every act task (fifo / explore runs) / every task (lifo runs)", queue="FIFO, LIFO, and every service order with one scripted action")
+    if tier != "quick":
+        # longest first (the unpartitioned and the deep jobs), so that the run does not end in a long tail of two or three workers
+        def weight(j):
+            cfg = j[2][1]
+            return -(cfg.get("max_paths", 0) * (1 + cfg.get("k", 0)) * (1 if cfg.get("part") else 4))
+        jobs.sort(key=weight)
     return jobs, bounds
